@@ -11,6 +11,8 @@ def run(ctx):
     from . import progress
     progress.rule_maximal_result_from_search(ctx)
     progress.rule_ideal_early_exit(ctx)
+    from . import dyn as _dyn
+    _dyn.rule_decoders_keep_true_variables(ctx)
     accept.rule_stable_unsat(ctx, 'extension')
     provenance.rule_argument_provenance(ctx)
     provenance.rule_ownership(ctx)
